@@ -26,7 +26,7 @@ func c14(c *core.Check) {
 		"(2) SIB: the three queries Field / Int / Str are alpha-equivalent modulo the storage accessor (compared with each other), and the intMap / strMap method sets (Reset, Get, SetIfNotExist, Unset) are alpha-equivalent modulo the key type. " +
 		"(3) EXIT: every explicit panic(...) call site of the package that is reachable from an exported function or method is either unreachable by construction — the checker re-verifies the guard: newPathToken's default arm (every call passes a constant token type the switch handles), pathValue.Int32 (every call is preceded by a range test of the same value) — or tabled as a programmer-error panic that no input string can trigger. " +
 		"(4) the trie is a tree: every store of a node into trie storage (map element, head array, `all`) stores a node allocated for that slot, once per store (go/ssa). " +
-		"NOT decided: trie vs path-set equivalence, JSON round trip, acceptance of unterminated index/key brackets."
+		"(5) three run-time panic shapes are excluded for the whole package: fixed-array indexes by signed values are bounded on both sides, a scan index that a loop advances twice is clamped before it is used as a slice bound, and no pointer that is nil on some path is dereferenced without a dominating nil test (go/ssa). NOT decided: trie vs path-set equivalence, JSON round trip, acceptance of unterminated index/key brackets."
 	c.RuleText = "one obligation per map-iteration site, sibling pair and reachable panic site"
 	c.Assume = []string{"VTA call graph over-approximates calls", "panics inside strconv/sort/json are outside the rule (library code)"}
 	prog := c.Prog
@@ -157,6 +157,7 @@ func c14(c *core.Check) {
 	c.Min("no-input-panic", 3)
 	c14trie(c)
 	c14noFloatKeys(c)
+	c14runtimePanics(c)
 }
 
 // newPathTokenTotal: the panic in newPathToken's default arm is unreachable: every call passes a constant pathType that
